@@ -8,6 +8,7 @@ CONSTANTS
   RefE <- MCRefE
   RefAttrSeq <- MCRefAttr
   Inits <- MCInits
+  WithSub = FALSE
   Depth = 4
   Emit = TRUE
 INVARIANTS TypeOK AnswersFresh CacheCoherent CopyLaws Leaf
